@@ -1331,8 +1331,18 @@ def gen_C20(g, tier):
                 lines.append(f"{c} show {op} p str {hx(t)}")
         for _ in range(10 if tier == "quick" else 200):
             v, n = rand_value(g, c, r.randrange(1, 5), 120)
-            for op in ("mask", "unmask"):
+            for op in ("mask", "unmask", "tomask", "tounmask"):
                 lines.append(f"{c} show {op} {v}")
+        # content stored under alternative codes (raw constructors / set operations): in-place and copying forms agree
+        if alt_codes(g, c):
+            for n in sorted({1, 2, per - 1, per, per + 1, 2 * per + 1}):
+                for _ in range(1 if tier == "quick" else 6):
+                    av = alt_value(g, c, n)
+                    for op in ("mask", "unmask", "tomask", "tounmask"):
+                        lines.append(f"{c} show {op} {av}")
+                        lines.append(f"{c} show {op} {op} {av}")
+                    lines.append(f"{c} show tounmask tomask {av}")
+                    lines.append(f"{c} show comp tomask {av}")
     lines.append("dna show mask p str 41")
     return lines
 
